@@ -387,6 +387,23 @@ def run_cases(rep, cases):
                         failed = True
                     else:
                         rep.count(f"{fmt}:ok")
+                        if fmt in ("yaml", "json"):
+                            # reading has no memory: the same text read again (same string object, then an equal copy)
+                            # gives the same schema
+                            try:
+                                reader = io.from_yaml if fmt == "yaml" else io.from_json
+                                again = [reader(text), reader("".join(list(text)))]
+                            except Exception as e:  # noqa: BLE001
+                                rep.property_failure(A, f"{fmt}: reading the same text again raises {type(e).__name__}: "
+                                                        f"{str(e)[:100]}", region=region_for(fmt))
+                                failed = True
+                                continue
+                            for k, S3 in enumerate(again):
+                                if fp_schema(S3) != fp0:
+                                    rep.property_failure(A, f"{fmt}: the same text read again (read #{k + 2}) gives another "
+                                                            f"schema: {diff(fp0, fp_schema(S3))}", region=region_for(fmt))
+                                    failed = True
+                                    break
             for v in v0:
                 rep.count("probe:" + v.split(":")[0])
         if fp_schema(S) != fp0:
